@@ -4,8 +4,8 @@
 (* actions of TreePm.tla (unchanged) constrained by what the recorder      *)
 (* logged after each call of the real pmtree::MerkleTree<SledDB, Poseidon>:*)
 (* result, next_index in memory and in the store, the root field, and the  *)
-(* CONTENT OF THE STORE - for every node position whether a value is       *)
-(* stored under its key and which.  The model state is carried through the *)
+(* value read at every node position; the CONTENT OF THE STORE (whether a *)
+(* value is stored under a key, and which) is compared too, as information.  The model state is carried through the *)
 (* whole trace (no adoption); TreePm's invariants (Consistent, MarkOK,     *)
 (* ProofOK, LoadedEqualsLive) are checked by TLC in every state of the     *)
 (* trace.  Field elements are interned ids; the model's free hash terms    *)
@@ -31,11 +31,16 @@ Val(term) == IF term[1] = "L" THEN term[2] ELSE H2(Val(term[2]), Val(term[3]))  
 
 Stored(d) == {<<lv, i, Val(d[Key(lv, i)])>> : <<lv, i>> \in {p \in (0..Depth) \X (0..(Cap - 1)) : p[2] < Pow2(p[1]) /\ Key(p[1], p[2]) \in DOMAIN d}}
 Logged(e) == {<<e.nodes[k][1], e.nodes[k][2], e.nodes[k][3]>> : k \in 1..Len(e.nodes)}
-\* the logged post-state is the model's post-state
+\* the logged post-state is the model's post-state in everything an observer can see: result, leaf count, root field, and the value
+\* READ at every node position (stored, or the level's default).  Which positions hold a stored value, and the raw next_index entry,
+\* are an implementation choice the property does not constrain: a difference there is reported as LAYOUT information, never as a
+\* deviation (a store that, say, leaves default values out and reads them back as defaults is observationally the ideal tree).
+ReadsOK(e) == \A lv \in 0..Depth : \A i \in 0..(Pow2(lv) - 1) : e.reads[lv + 1][i + 1] = Val(GetElem(db', lv, i))
 Observed(e) == /\ (e.op = "reload" \/ lastres'[1] = e.res)          \* (a reload reports nothing of its own)
-               /\ pnext' = e.next /\ db'[KNext] = e.dbnext
+               /\ pnext' = e.next
                /\ Val(proot') = e.root
-               /\ Stored(db') = Logged(e)
+               /\ ReadsOK(e)
+Layout(e) == Stored(db') = Logged(e) /\ db'[KNext] = e.dbnext
 
 New(e) == /\ e.depth = Depth /\ e.res = "ok"
           /\ ideal' = Empty /\ db' = NewDb /\ pnext' = 0 /\ proot' = Cache(0) /\ flags' = {} /\ lastres' = <<"ok", {"ok"}>>
@@ -46,7 +51,7 @@ Step(e) == CASE e.op = "new" -> New(e)
              [] e.op = "range" -> RangeA(e.s, e.vs)
              [] e.op = "reload" -> Reload /\ e.res = "ok"
 TInit == Init /\ l = 1
-TNext == More /\ Step(Rec[l]) /\ Observed(Rec[l]) /\ l' = l + 1
+TNext == More /\ Step(Rec[l]) /\ Observed(Rec[l]) /\ (Layout(Rec[l]) \/ PrintT(<<"LAYOUT", l>>)) /\ l' = l + 1
 TSpec == TInit /\ [][TNext]_<<vars, l>>
 Accepted == (TLCGet("stats").diameter - 1 = Len(Rec)) \/ (PrintT(<<"REJECT", TLCGet("stats").diameter>>) /\ FALSE)
 =============================================================================
